@@ -11,11 +11,15 @@
     * repeated column indices: `denseA_entry_sum` (`project_equations()`'s `+=`: the dense entry is the SUM of the
       stored coefficients, no `Nodup` hypothesis), `diagBlock_row_dense` (an uncorrelated block keeps every entry);
       the witness `Ex.repNp` / `Ex.repMat` / `Ex.repCov` (a correlated block whose first row stores column 1 twice),
-      evaluated over `Rat` (every pivot is 1, so the marker `sqrt = id` of `Scalar Rat` is exact on it).
+      evaluated over `Rat` (every pivot is 1, so the marker `sqrt = id` of `Scalar Rat` is exact on it):
+      `rep_same_input`, `rep_dense_path`, `rep_sparse_path`, `rep_differ`;
+    * non-vacuity of the sparse-path bridge: `Ex.npRMat`, `Ex.npRCov` hold the correlated network `Ex.npR`
+      (`npR_holds : Env.HoldsProblem (toProblem npR) npRMat npRCov []`) and `Hom.run` accepts them (`npR_homrun_accepted`).
 -/
 import Gama.Lemmas.HomEnvBridge
 import Gama.Lemmas.Ls.NetFacade
 import Gama.Lemmas.CovHomAsm
+import Gama.Lemmas.Ls.NetFacadeReal
 
 namespace Gama.Ls
 open Finset Gama.LS Gama.Ls.AdjM Dn Gama.Ls.Env Matrix
@@ -201,5 +205,129 @@ theorem hom_run_reaches_homogenize (hsq : IsSqrt (SqrtFn.sq : K → K)) (p : Pro
   | ok he => exact ⟨he, rfl, h4 out he hrun hh⟩
 
 end
+
+/-! ### repeated column index inside a CORRELATED block: the witness
+
+  One cluster of two observations with covariance `[[1,1],[1,2]]` (band 1; positive definite, every Cholesky pivot is 1, so
+  `sqrt = id` of `Scalar Rat` is exact on it), `m_0_apr_ = 1`; two unknowns; the first row stores column 1 TWICE
+  (coefficients `−1` and `+1`: an observation from a point to itself), the second row is `(2, 1)`; `rhs = (1, 2)`.
+  The Cholesky factor is `L = [[1,0],[1,1]]`, `L⁻¹ = [[1,0],[−1,1]]`.
+    dense path  (`project_equations()` `+=`, then `prepareProjectEquations()`): `A = [[0,0],[0,1]]`, `L⁻¹A = [[0,0],[0,1]]`;
+    sparse path (`Homogenization::run`, gather `T(i,perm[c]) = a`):            `A = [[1,0],[0,1]]`, `L⁻¹A = [[1,0],[−1,1]]`.
+  Both homogenise `rhs` to `(1, 1)`. -/
+namespace Ex
+
+def repNp : Net.NetProblem Rat :=
+  { m := 2, n := 2, rows := #[#[(1, -1), (1, 1)], #[(2, 1)]], rhs := #[1, 2]
+    clusters := [⟨⟨2, 1, #[1, 1, 2]⟩, [true, true]⟩], m0 := 1, minx := [] }
+
+/-- the same rows as a `SparseMatrix` -/
+def repMat : SMat Rat := SMat.ofRows 2 2 [[(1, -1), (1, 1)], [(2, 1)]] []
+
+/-- `BlockDiagonal(1, 3)` after `add_block(2, 1, [1,1,2])` -/
+def repCov : Cov.BlockDiag Rat := (Cov.BlockDiag.init 0 1 3).addBlock 0 2 1 #[1, 1, 2]
+
+/-- the two paths get the same input: the rows, the cofactor block, the right-hand side -/
+theorem rep_same_input :
+    @SMat.toRows Rat ⟨0⟩ repMat = repNp.rows.toList.map Array.toList ∧
+    (Net.cofs repNp).map (fun C => (C.dim, C.band, C.buf)) = [(2, 1, #[1, 1, 2])] ∧
+    repCov.Built [⟨2, 1, #[1, 1, 2]⟩] [] ∧
+    (repMat.rows, repMat.cols) = (repNp.m, repNp.n) := by
+  refine ⟨by decide +kernel, by decide +kernel, ?_, rfl⟩
+  have h0 := Cov.BlockDiag.built_init (0 : Rat) 1 3
+  exact Cov.BlockDiag.built_addBlock 0 2 1 #[1, 1, 2] h0 (by decide)
+
+/-- dense path: the matrix that is homogenised holds the SUM `−1 + 1 = 0` -/
+theorem rep_dense_path :
+    Net.denseA repNp = #[#[0, 0], #[0, 1]] ∧
+    (Net.prepare repNp).toOption.map (fun h => (h.Ad, h.bd)) = some (#[#[0, 0], #[0, 1]], #[1, 1]) := by
+  refine ⟨by decide +kernel, by decide +kernel⟩
+
+/-- sparse path: `Homogenization::run` homogenises the LAST stored value `+1` (and so does the homogenisation of
+    `envSolve`, whose dense matrix `Problem.dense` is built with `=`) -/
+theorem rep_sparse_path :
+    (Cov.Hom.run (Cov.bdTol : Rat) repMat repCov repNp.rhs).toOption.map
+        (fun o => (@SMat.toRows Rat ⟨0⟩ o.sm, o.pr)) = some ([[(1, 1)], [(1, -1), (2, 1)]], #[1, 1]) ∧
+    (Env.homogenize (Net.toProblem repNp)).toOption.map (fun h => (h.At, h.bt)) = some (#[#[1, 0], #[-1, 1]], #[1, 1]) := by
+  refine ⟨by decide +kernel, by decide +kernel⟩
+
+/-- **the two paths differ**: both accept, and column 1 of the homogenised design matrix is `(0, 0)` on the dense path
+    and `(1, −1)` on the sparse path -/
+theorem rep_differ : ∃ hh out, Net.prepare repNp = .ok hh ∧
+    Cov.Hom.run (Cov.bdTol : Rat) repMat repCov repNp.rhs = .ok out ∧
+    Dn.mget hh.Ad 0 0 = 0 ∧ Cov.denseRow (@SMat.rowEntries Rat ⟨0⟩ out.sm 1) 1 = 1 ∧
+    Dn.mget hh.Ad 1 0 = 0 ∧ Cov.denseRow (@SMat.rowEntries Rat ⟨0⟩ out.sm 2) 1 = -1 := by
+  have h1 : (Net.prepare repNp).toOption.map (fun h => (Dn.mget h.Ad 0 0, Dn.mget h.Ad 1 0)) = some (0, 0) := by
+    decide +kernel
+  have h2 : (Cov.Hom.run (Cov.bdTol : Rat) repMat repCov repNp.rhs).toOption.map
+      (fun o => (Cov.denseRow (@SMat.rowEntries Rat ⟨0⟩ o.sm 1) 1, Cov.denseRow (@SMat.rowEntries Rat ⟨0⟩ o.sm 2) 1))
+      = some (1, -1) := by decide +kernel
+  cases hp : Net.prepare repNp with
+  | error e => rw [hp] at h1; cases h1
+  | ok hh =>
+    cases hr : Cov.Hom.run (Cov.bdTol : Rat) repMat repCov repNp.rhs with
+    | error e => rw [hr] at h2; cases h2
+    | ok out =>
+      rw [hp] at h1
+      rw [hr] at h2
+      have e1 := Option.some.inj h1
+      have e2 := Option.some.inj h2
+      exact ⟨hh, out, rfl, rfl, congrArg Prod.fst e1, congrArg Prod.fst e2, congrArg Prod.snd e1, congrArg Prod.snd e2⟩
+
+end Ex
+
+
+/-! ### non-vacuity of the sparse-path bridge: the correlated network `Ex.npR` as `SparseMatrix` + `BlockDiagonal` -/
+namespace Ex
+open Gama.Ls.Net
+attribute [local instance] sqrtFnOfSqrtField
+attribute [local instance 2000] scalarOfField
+
+/-- the sparse rows of `npR` as a `SparseMatrix` -/
+noncomputable def npRMat : SMat ℝ := SMat.ofRows 3 2 [[(1, 4), (2, 4)], [(1, 5), (2, 5)], [(1, 4), (2, 4)]] []
+
+/-- `BlockDiagonal(2, 4)` after `add_block(2,1,[4,2,10])` (the correlated cluster's `activeCov()/m0²`), `add_block(1,0,[4])` -/
+noncomputable def npRCov : Cov.BlockDiag ℝ :=
+  ((Cov.BlockDiag.init 0 2 4).addBlock 0 2 1 #[4, 2, 10]).addBlock 0 1 0 #[4]
+
+theorem npRMat_wf : npRMat.WF := SMat.ofRows_WF 3 2 _ [] rfl (by
+    intro row hrow e he
+    simp only [List.mem_cons, List.not_mem_nil, or_false] at hrow
+    rcases hrow with rfl | rfl | rfl <;> simp at he <;> rcases he with rfl | rfl <;> decide)
+
+theorem npR_holds : Env.HoldsProblem (toProblem npR) npRMat npRCov [] := by
+  have hin := Net.inputOK npR (npW_dims 2 [1]) (npW_rows 2 [1])
+  refine ⟨hin.blocks, hin.dims, ?_, npRMat_wf, by decide, rfl, rfl, rfl, ?_⟩
+  · show npRCov.Built (Env.covMats (toProblem (npW 2 [1]))) []
+    rw [npW2_toProblem]
+    have h0 := Cov.BlockDiag.built_init (0 : ℝ) 2 4
+    have h1 := Cov.BlockDiag.built_addBlock 0 2 1 #[4, 2, 10] h0 (by decide)
+    have h2 := Cov.BlockDiag.built_addBlock 0 1 0 #[4] h1 (by decide)
+    exact h2
+  · intro i c hi hc
+    have hi' : i < 3 := hi
+    have hc' : c < 2 := hc
+    have hd : (toProblem npR).dense = #[#[4, 4], #[5, 5], #[4, 4]] := npW_dense 2 [1]
+    have r1 : @SMat.rowEntries ℝ ⟨0⟩ npRMat 1 = [(1, 4), (2, 4)] := rfl
+    have r2 : @SMat.rowEntries ℝ ⟨0⟩ npRMat 2 = [(1, 5), (2, 5)] := rfl
+    have r3 : @SMat.rowEntries ℝ ⟨0⟩ npRMat 3 = [(1, 4), (2, 4)] := rfl
+    have hi2 : i = 0 ∨ i = 1 ∨ i = 2 := by omega
+    have hc2 : c = 0 ∨ c = 1 := by omega
+    rw [hd]
+    rcases hi2 with rfl | rfl | rfl <;> rcases hc2 with rfl | rfl <;>
+      simp [r1, r2, r3, Cov.denseRow, Env.mget, Env.vget]
+
+/-- `Homogenization::run` accepts it (because `Env.homogenize` does: `pSp_homogenize`) -/
+theorem npR_homrun_accepted (hsq : IsSqrt (SqrtFn.sq : ℝ → ℝ)) :
+    ∃ out, @Cov.Hom.run ℝ (Cov.fieldScalar ℝ SqrtFn.sq) (Env.bdTol : ℝ) npRMat npRCov (toProblem npR).rhs = .ok out := by
+  obtain ⟨h1, -⟩ := hom_run_eq_homogenize hsq (toProblem npR) npRMat npRCov [] npR_holds
+  cases hr : @Cov.Hom.run ℝ (Cov.fieldScalar ℝ SqrtFn.sq) (Env.bdTol : ℝ) npRMat npRCov (toProblem npR).rhs with
+  | ok out => exact ⟨out, rfl⟩
+  | error e =>
+    obtain ⟨e', he'⟩ := h1.1 ⟨e, hr⟩
+    rw [show toProblem npR = pSp [1] from npW2_toProblem [1], pSp_homogenize] at he'
+    cases he'
+
+end Ex
 
 end Gama.Ls
